@@ -153,7 +153,9 @@ func c07ModelRunClass(m string) string {
 }
 
 func c07Exec(c *c20Case) c20Obs {
+	c20LastStream = nil
 	obs, last := c20ExecGraph(c)
+	stream := c20LastStream // the Stream side of the last successful Compile
 	okAll := len(obs.Out) > 0 && obs.Out[len(obs.Out)-1] == "ok" && c.Ops[len(c.Ops)-1].Op == "compile"
 	if okAll && last != nil {
 		for _, d := range c.Runs {
@@ -161,6 +163,13 @@ func c07Exec(c *c20Case) c20Obs {
 			obs.Runs = append(obs.Runs, c07RunClass(cls))
 			if detail != "" {
 				obs.Notes = append(obs.Notes, "run("+d+"): "+detail)
+			}
+			if c.SRuns && stream != nil {
+				cls, detail = c20RunOnce(stream, c20Val(d))
+				obs.RunsS = append(obs.RunsS, c07RunClass(cls))
+				if detail != "" {
+					obs.Notes = append(obs.Notes, "stream run("+d+"): "+detail)
+				}
 			}
 		}
 	}
@@ -190,7 +199,8 @@ func c07Compare(c *c20Case, m *c07Model, obs *c20Obs) *c07Diff {
 			// the implementation accepted a call the model refuses, went on to compile, and a run
 			// of the compiled graph panicked on a type assertion: the property's failure itself
 			if obs.Out[i] == "ok" && len(m.Runs) == 0 {
-				for k, rc := range obs.Runs {
+				for k, rc := range append(append([]string{}, obs.Runs...), obs.RunsS...) {
+					k = k % len(c.Runs)
 					if rc == "panic" {
 						return &c07Diff{"C07:run-panic:model=rejected:" + c.Ops[i].Op + c07ConnSuffix(c),
 							fmt.Sprintf("call %d (%s): the model refuses it (%s); the implementation accepted every call, compiled the graph, and the run with a START value of dynamic type %s panicked on a type assertion%s",
@@ -218,6 +228,26 @@ func c07Compare(c *c20Case, m *c07Model, obs *c20Obs) *c07Diff {
 				fmt.Sprintf("run with a START value of dynamic type %s: the model says %s, the implementation %s", c.Runs[i], m.Runs[i], obs.Runs[i])}
 		}
 	}
+	if c.SRuns {
+		// linear graphs only: every value is read by the next node or by the caller, so a Stream run
+		// ends in the same class as an Invoke run
+		if len(obs.RunsS) != len(m.Runs) {
+			return &c07Diff{"C07:harness:stream-runs-length", fmt.Sprintf("model ran %d inputs, implementation streamed %d", len(m.Runs), len(obs.RunsS))}
+		}
+		for i := range m.Runs {
+			if obs.RunsS[i] == "panic" {
+				return &c07Diff{"C07:run-panic:stream:model=" + m.Runs[i] + c07ConnSuffix(c),
+					fmt.Sprintf("a graph that compiled panicked on a type assertion in a Stream run with a START value of dynamic type %s (the model says %s)%s", c.Runs[i], m.Runs[i], c07ConnText(c))}
+			}
+			if m.Runs[i] == "merge" {
+				continue
+			}
+			if c07ModelRunClass(m.Runs[i]) != obs.RunsS[i] {
+				return &c07Diff{fmt.Sprintf("C07:run:stream:model=%s,impl=%s", m.Runs[i], obs.RunsS[i]),
+					fmt.Sprintf("Stream run with a START value of dynamic type %s: the model says %s, the implementation %s%s", c.Runs[i], m.Runs[i], obs.RunsS[i], c07ConnText(c))}
+			}
+		}
+	}
 	return nil
 }
 
@@ -237,7 +267,7 @@ func c07Check(ctx *vh.Ctx, c *c20Case, repeats int) (*c07Diff, *c07Model, *c20Ob
 	// the same sequence again: inference follows Go's map order, the outcome must not
 	for k := 1; k < repeats; k++ {
 		o := c07Exec(c)
-		if c20Coarse(o.Out) != c20Coarse(obs.Out) || strings.Join(o.Runs, ",") != strings.Join(obs.Runs, ",") {
+		if c20Coarse(o.Out) != c20Coarse(obs.Out) || strings.Join(o.Runs, ",") != strings.Join(obs.Runs, ",") || strings.Join(o.RunsS, ",") != strings.Join(obs.RunsS, ",") {
 			return &c07Diff{"C07:nondeterministic", fmt.Sprintf("attempt %d gave calls %v runs %v, the first attempt calls %v runs %v", k+1, o.Out, o.Runs, obs.Out, obs.Runs)}, &m, &o, nil
 		}
 	}
@@ -353,11 +383,18 @@ func c07Fixed() []*c20Case {
 }
 
 func runC07(ctx *vh.Ctx) error {
-	ctx.Res.Rule = "construction sequences over the 17-type menu (string, int, struct, two implementers, two interfaces, any, map[string]any + defined types over unnamed members: MyMap/map[string]any, Ints/[]int, MyStr/string, Fn/func(int) int, chan int/<-chan int): (1) the universe table of the model against reflect and real type assertions; (2) for every ordered pair (A,B) of the 17 types seven minimal graphs whose only questionable connection is A->B (edge, START->END, branch, pass-through typed from either side, branch on a pass-through typed from either side); (3) random spine graphs (<=5 nodes, lambdas for every (in,out) pair, pass-through nodes, branches, state handlers, mostly compatible types), pass-through-heavy graphs (1-3 pass-through + 1-3 lambda nodes over 2-5 types, random edges, branches incl. zero-end ones, links in random order) over the basic menu and over a named/unnamed family; every random sequence built 6 times (pair graphs twice); compiled graphs run with a START value of every dynamic type inhabiting the input type; non-trivial = the graph compiled or contains a pass-through node; distinct by (graph types, state, call sequence)"
+	ctx.Res.Rule = "construction sequences over the 17-type menu (string, int, struct, two implementers, two interfaces, any, map[string]any + defined types over unnamed members: MyMap/map[string]any, Ints/[]int, MyStr/string, Fn/func(int) int, chan int/<-chan int): (1) the universe table of the model against reflect and real type assertions; (2) for every ordered pair (A,B) of the 17 types seven minimal graphs whose only questionable connection is A->B (edge, START->END, branch, pass-through typed from either side, branch on a pass-through typed from either side) and a graph[A->B] whose entry pass-through, typed A from START, has a second, any-typed predecessor; (3) random spine graphs (<=5 nodes, lambdas for every (in,out) pair, pass-through nodes, branches, state handlers, mostly compatible types), pass-through-heavy graphs (1-3 pass-through + 1-3 lambda nodes over 2-5 types, random edges, branches incl. zero-end ones, links in random order) over the basic menu and over a named/unnamed family; (4) state handlers: for every ordered pair a node A->A with a pre / post handler (value or stream form) declared on B, random graphs with one handler retyped; (5) input / output keys: lambdas and graphs used as nodes with WithInputKey / WithOutputKey behind START(A) / a pass-through / a branch and in front of END(A) for every menu type A, random linear graphs of keyed and plain nodes, every run also through Stream; (6) Workflows: for every ordered pair a branch condition (invoke / stream condition) on a node, on START and on a pass-through node, a whole-output input, a dependency + data-only input, an input of END (one case per dynamic type for an interface upstream), random Workflows (control chain with inputs, dependency + data-only inputs, forks, branches to the next node / a later node / END, field mappings X->X between equal struct types): Compile verdict and an Invoke and a Stream run per START value; every random sequence built 6 times (pair graphs twice, Workflows 2-3 times); compiled graphs run with a START value of every dynamic type inhabiting the input type; non-trivial = the graph compiled or contains a pass-through node, every Workflow; distinct by (graph types, state, call sequence / declarations)"
 	repeats := 6
 	if ctx.Replay != nil {
 		if c07IsUniverseReplay(ctx.Replay) {
 			return c07CheckUniverse(ctx)
+		}
+		if c07IsWfReplay(ctx.Replay) {
+			var w c07WfCase
+			if err := json.Unmarshal(ctx.Replay, &w); err != nil {
+				return err
+			}
+			return c07WfOne(ctx, &w, 6)
 		}
 		var c c20Case
 		if err := json.Unmarshal(ctx.Replay, &c); err != nil {
@@ -378,13 +415,43 @@ func runC07(ctx *vh.Ctx) error {
 			return err
 		}
 	}
+	for _, c := range c07HandlerCases() {
+		if err := c07One(ctx, c, 2); err != nil {
+			return err
+		}
+	}
+	for _, c := range c07KeyedCases() {
+		if err := c07One(ctx, c, 2); err != nil {
+			return err
+		}
+	}
+	for _, c := range c07WfFixed() {
+		if err := c07WfOne(ctx, c, 6); err != nil {
+			return err
+		}
+	}
+	for _, c := range c07WfPairCases() {
+		if err := c07WfOne(ctx, c, 2); err != nil {
+			return err
+		}
+	}
 	n := ctx.N(15000, 80000)
 	for i := 0; i < n && ctx.TimeLeft(); i++ {
 		var c *c20Case
 		switch x := ctx.Rng.Intn(100); {
-		case x < 45:
+		case x < 25:
+			if err := c07WfOne(ctx, c07GenWf(ctx.Rng), 3); err != nil {
+				return err
+			}
+			continue
+		case x < 52:
 			c = c20GenGraph(ctx.Rng, true)
-		case x < 75:
+			if ctx.Rng.Chance(25) {
+				c07TweakHandler(ctx.Rng, c)
+			}
+		case x < 60:
+			c = c07GenKeyed(ctx.Rng)
+		case x < 82:
 			c = c07GenPT(ctx.Rng)
 		default:
 			c = c07GenNamed(ctx.Rng)
